@@ -1,71 +1,174 @@
 (* Gen -- the definitions that lib/xlate_field.py generates from the CURRENT Rust source
    (Gen/GenField.v) are equal, for all arguments, to the hand-written model functions the
    C02 / C03 theorems are about; hence those theorems hold of what the code says now.
-   Where the generated text is the model's expression up to let-bindings the proof is
-   conversion ([reflexivity] after destructuring the tuples); where the shapes differ by a
-   ring identity (`0 + x` of sum_of_products; the extension-degree test of dbl-2009-l at the
-   impossible degree 0) the lemma is stated under the [ring_theory] hypothesis the C02/C03
-   proof files use and closed by [ring]. *)
+
+   Robustness: every `gen_X_eq` lemma is stated under the [ring_theory] premise the C02/C03
+   theorems need anyway and proved by [gen_solve]: try conversion; otherwise unfold both
+   sides, make the arguments of opaque calls (hooks, finv, feqb, sub-functions) syntactically
+   equal where they are ring-equal, split the `if`s -- identically on both sides -- and close
+   every component with [ring].  So a refactoring of /repo that changes an expression only up
+   to a ring identity (a*b -> b*a, x.double() -> x + x, reassociation, another addition
+   chain) keeps the lemma; a change of a formula's value or of the branch structure does not. *)
 From V Require Import Base.Field Gen.GenField.
 From V Require Import C03.SWModel C03.TEModel C03.SWProofs C03.TEProofs C03.FieldHyp.
 From V Require Import C02.Quad C02.Cubic C02.Towers C02.QuadProofs C02.CubicProofs C02.TowerProofs C02.CycProofs.
 Require Import Coq.setoid_ring.Ring Coq.setoid_ring.Field Lia.
 
+(* ---------------------------------------------------------------- tactics *)
 Ltac tuples :=
-  repeat match goal with x : (_ * _)%type |- _ => destruct x end.
+  repeat match goal with
+         | x : (_ * _)%type |- _ => destruct x
+         | x : option _ |- _ => destruct x
+         end.
 
-(* ====================== A. short Weierstrass (Jacobian) ====================== *)
+Ltac gen_leaf :=
+  lazymatch goal with
+  | |- (_, _) = (_, _) => apply f_equal2; gen_leaf
+  | |- Some _ = Some _ => apply f_equal; gen_leaf
+  | |- GRet _ = GRet _ => apply f_equal; gen_leaf
+  | |- _ => first [reflexivity | timeout 20 ring]
+  end.
 
-Section SWConv.
-  Context {T : Type} (F : Fops T).
-  Lemma gen_sw_is_zero_eq P : gen_sw_is_zero F P = sw_is_zero F P.
-  Proof. tuples. reflexivity. Qed.
-  Lemma gen_sw_zero_eq : gen_sw_zero F = sw_zero F.
-  Proof. reflexivity. Qed.
+(* heads that [ring] understands (or plain constructors): their arguments need no alignment *)
+Ltac head_of t := lazymatch t with ?g _ => head_of g | _ => t end.
+Ltac opaque_head f :=
+  let h := head_of f in
+  lazymatch h with
+  | @fadd => fail | @fsub => fail | @fmul => fail | @fneg => fail | @f0 => fail | @f1 => fail
+  | @pair => fail | @Some => fail | @GRet => fail | @fst => fail | @snd => fail
+  | andb => fail | orb => fail | negb => fail
+  | _ => idtac
+  end.
 
-  (* pure conversion as soon as the extension degree is not 0 (it never is) *)
-  Lemma gen_sw_double_eq_refl a P : fdeg F <> 0%nat ->
-    gen_sw_double_in_place F a (sw_mul_by_a F a) P = sw_double F a P.
-  Proof.
-    intros Hd. tuples. unfold gen_sw_double_in_place, sw_double.
-    destruct (fdeg F) as [|[|[|n]]]; [contradiction | reflexivity ..].
-  Qed.
-End SWConv.
+(* [gen_arg]: as gen_leaf, with a short bound: used on the arguments of opaque calls *)
+Ltac gen_arg :=
+  lazymatch goal with
+  | |- (_, _) = (_, _) => apply f_equal2; gen_arg
+  | |- Some _ = Some _ => apply f_equal; gen_arg
+  | |- _ => first [reflexivity | timeout 5 ring]
+  end.
+
+Ltac unify1 :=
+  match goal with
+  | |- ?L = ?R =>
+      match L with context [?f ?x1 ?x2 ?x3] =>
+        opaque_head f;
+        match R with context [f ?y1 ?y2 ?y3] =>
+          tryif (constr_eq x1 y1; constr_eq x2 y2; constr_eq x3 y3) then fail else
+          (replace (f y1 y2 y3) with (f x1 x2 x3) by (apply f_equal3; gen_arg))
+        end end
+  | |- ?L = ?R =>
+      match L with context [?f ?x1 ?x2] =>
+        opaque_head f;
+        match R with context [f ?y1 ?y2] =>
+          tryif (constr_eq x1 y1; constr_eq x2 y2) then fail else
+          (replace (f y1 y2) with (f x1 x2) by (apply f_equal2; gen_arg))
+        end end
+  | |- ?L = ?R =>
+      match L with context [?f ?x] =>
+        opaque_head f;
+        match R with context [f ?y] =>
+          tryif constr_eq x y then fail else
+          (replace (f y) with (f x) by (apply f_equal; gen_arg))
+        end end
+  end.
+Ltac unify_calls := repeat unify1.
+(* the same for a given binary operation (the abstract Fp6 dictionary of the Fp12 models) *)
+Ltac unify_bin f :=
+  repeat match goal with
+  | |- ?L = ?R =>
+      match L with context [f ?x1 ?x2] =>
+        match R with context [f ?y1 ?y2] =>
+          tryif (constr_eq x1 y1; constr_eq x2 y2) then fail else
+          (replace (f y1 y2) with (f x1 x2) by (apply f_equal2; gen_arg))
+        end end
+  end.
+
+Ltac split_ifs :=
+  repeat match goal with |- context [if ?c then _ else _] => destruct c eqn:? end.
+
+Ltac gen_norm :=
+  cbv beta iota zeta;
+  unfold fsqr, fdbl, fis0, SWModel.sq, SWModel.dbl, Towers.dbl, sop2;
+  cbn [fst snd c0 c1 c2].
+(* everything is bounded: on a changed formula the goal is false and must fail fast *)
+Ltac gen_solve := timeout 60 (gen_norm; unify_calls; split_ifs; cbv beta iota; gen_leaf).
+
+Lemma nat_deg2 n : Nat.eqb (2 * n) 2 = Nat.eqb n 1.
+Proof. destruct (Nat.eqb_spec (2 * n) 2), (Nat.eqb_spec n 1); try reflexivity; timeout 20 lia. Qed.
+
+(* the Rust struct Affine { x, y, infinity } of a model point (None = infinity, x = y = 0) *)
+Definition sw_aff_repr {T : Type} (F : Fops T) (A : option (T * T)) : T * T * bool :=
+  match A with None => (f0 F, f0 F, true) | Some (x, y) => (x, y, false) end.
+Definition cubic_inv_as_gen {T : Type} (r : cubic_inv_result (T:=T)) : gen_result (option (T * T * T)) :=
+  match r with CubicInvNone => GRet None | CubicInvPanic => GPanic | CubicInvSome x => GRet (Some x) end.
+Definition te_opt_as_gen {T : Type} (r : option (T * T)) : gen_result (T * T) :=
+  match r with Some A => GRet A | None => GPanic end.
+
+(* ====================== A/E. short Weierstrass (Jacobian) ====================== *)
 
 Section SWSpecs.
-  Context {T : Type} (F : Fops T) (a : T).
+  Context {T : Type} (F : Fops T) (a b : T).
   Hypothesis Rth : ring_theory (f0 F) (f1 F) (fadd F) (fmul F) (fsub F) (fneg F) eq.
   Add Ring GenSWRing : Rth.
-  (* P::mul_by_a: any implementation that agrees with the trait's default body *)
+  (* P::mul_by_a / P::add_b: any implementation that agrees with the trait's default body *)
   Variable mba : T -> T.
   Hypothesis mba_spec : forall e, mba e = sw_mul_by_a F a e.
+  Variable addb : T -> T.
+  Hypothesis addb_spec : forall e, addb e = sw_add_b F b e.
 
   Lemma gen_mul_0_r e : fmul F e (f0 F) = f0 F.
-  Proof. ring. Qed.
+  Proof. timeout 20 ring. Qed.
+  Lemma gen_sw_is_zero_eq P : gen_sw_is_zero F P = sw_is_zero F P.
+  Proof using Rth. tuples; try reflexivity; unfold gen_sw_is_zero, sw_is_zero; gen_solve. Qed.
+  Lemma gen_sw_zero_eq : gen_sw_zero F = sw_zero F.
+  Proof using Rth. try reflexivity; unfold gen_sw_zero, sw_zero; gen_solve. Qed.
 
+  (* the code tests `[1, 2].contains(extension_degree)`, the model `degree <= 2`: the two
+     ways of computing D agree as ring expressions, so the degree-0 case needs [ring] *)
   Lemma gen_sw_double_eq P : gen_sw_double_in_place F a mba P = sw_double F a P.
-  Proof.
-    destruct P as [[x y] z]. unfold gen_sw_double_in_place, sw_double. cbv beta iota zeta.
-    rewrite !mba_spec.
-    change (gen_sw_is_zero F (x, y, z)) with (feqb F z (f0 F)).
-    destruct (feqb F z (f0 F)); [reflexivity|].
-    destruct (feqb F a (f0 F)); [|reflexivity].
-    destruct (fdeg F) as [|[|[|n]]]; try reflexivity.
-    cbn [existsb Nat.eqb Nat.leb orb].
-    unfold fsqr, fdbl, SWModel.sq, SWModel.dbl. apply f_equal2; [apply f_equal2|]; ring.
+  Proof using Rth mba_spec.
+    destruct P as [[x y] z]. unfold gen_sw_double_in_place, sw_double, gen_sw_is_zero.
+    cbv beta iota zeta. rewrite ?mba_spec.
+    destruct (fdeg F) as [|[|[|n]]]; cbn [existsb Nat.eqb Nat.leb orb]; gen_solve.
   Qed.
 
   Lemma gen_sw_add_eq P Q : gen_sw_add_assign F a mba P Q = sw_add F a P Q.
-  Proof.
-    tuples. unfold gen_sw_add_assign, sw_add. cbv beta iota zeta.
-    rewrite gen_sw_double_eq. reflexivity.
+  Proof using Rth mba_spec.
+    tuples. unfold gen_sw_add_assign, sw_add, gen_sw_is_zero, gen_sw_zero, sw_zero. cbv beta iota zeta.
+    rewrite ?gen_sw_double_eq. gen_solve.
   Qed.
 
   Lemma gen_sw_madd_eq P Q : gen_sw_add_assign_affine F a mba P Q = sw_madd F a P Q.
-  Proof.
-    destruct Q as [[x2 y2]|]; tuples; unfold gen_sw_add_assign_affine, sw_madd; cbv beta iota zeta;
-      [rewrite gen_sw_double_eq|]; reflexivity.
+  Proof using Rth mba_spec.
+    tuples; unfold gen_sw_add_assign_affine, sw_madd, gen_sw_is_zero, gen_sw_zero, sw_zero; cbv beta iota zeta;
+      rewrite ?gen_sw_double_eq; gen_solve.
   Qed.
+
+  Lemma gen_sw_eq_eq P Q : gen_sw_eq F P Q = sw_eqb F P Q.
+  Proof using Rth. tuples; try reflexivity; unfold gen_sw_eq, sw_eqb, gen_sw_is_zero; gen_solve. Qed.
+  Lemma gen_sw_neg_eq P : gen_sw_neg F P = sw_neg F P.
+  Proof using Rth. tuples; try reflexivity; unfold gen_sw_neg, sw_neg; gen_solve. Qed.
+  Lemma gen_sw_from_affine_eq A : gen_sw_from_affine F A = sw_of_affine F A.
+  Proof using Rth. tuples; try reflexivity; unfold gen_sw_from_affine, sw_of_affine, gen_sw_zero, sw_zero; gen_solve. Qed.
+  (* From<Projective> for Affine: never panics (the unwrap is guarded by the identity test) *)
+  Lemma gen_sw_into_affine_eq P : gen_sw_into_affine F P = GRet (sw_aff_repr F (sw_to_affine F P)).
+  Proof using Rth.
+    tuples. unfold gen_sw_into_affine, sw_to_affine, gen_sw_is_zero, gen_sw_aff_identity, gen_sw_aff_new_unchecked.
+    timeout 60 (gen_norm; unify_calls; split_ifs; cbn [sw_aff_repr]; gen_leaf).
+  Qed.
+  Lemma gen_sw_aff_is_on_curve_eq A :
+    gen_sw_aff_is_on_curve F a mba addb (sw_aff_repr F A) = sw_aff_on_curve F a b A.
+  Proof using Rth mba_spec addb_spec.
+    tuples; unfold gen_sw_aff_is_on_curve, sw_aff_on_curve, sw_aff_repr; cbv beta iota zeta;
+      rewrite ?mba_spec, ?addb_spec; gen_solve.
+  Qed.
+  Lemma gen_sw_aff_neg_eq A : gen_sw_aff_neg F (sw_aff_repr F A) = sw_aff_repr F (sw_aff_neg F A).
+  Proof using Rth. tuples; unfold gen_sw_aff_neg, sw_aff_neg, sw_aff_repr; gen_solve. Qed.
+  Lemma gen_sw_aff_identity_eq : gen_sw_aff_identity F = sw_aff_repr F None.
+  Proof. reflexivity. Qed.
+  Lemma gen_sw_aff_new_unchecked_eq x y : gen_sw_aff_new_unchecked F x y = sw_aff_repr F (Some (x, y)).
+  Proof. reflexivity. Qed.
 End SWSpecs.
 
 (* headline corollaries: the generated formulas compute the affine chord-and-tangent law
@@ -119,23 +222,91 @@ Section SWCorollaries.
     intros P Q. rewrite (gen_sw_madd_eq F a Rth mba mba_default).
     apply (sw_madd_on_curve F a b (gf_th F G) (gf_eqb F G) (gf_two F G)).
   Qed.
+  (* equality, negation, conversion, curve equation *)
+  Theorem gen_sw_eq_spec : forall P Q, gen_sw_eq F P Q = true <-> sw_to_affine F P = sw_to_affine F Q.
+  Proof. intros P Q. rewrite (gen_sw_eq_eq F Rth). apply (sw_eqb_spec F (gf_th F G) (gf_eqb F G)). Qed.
+  Theorem gen_sw_neg_correct : forall P, sw_to_affine F (gen_sw_neg F P) = aff_neg_sw F (sw_to_affine F P).
+  Proof. intros P. rewrite (gen_sw_neg_eq F Rth). apply (sw_neg_correct F (gf_th F G) (gf_eqb F G)). Qed.
+  Theorem gen_sw_into_affine_spec : forall x y z, gen_sw_into_affine F (x, y, z) =
+    GRet (sw_aff_repr F (if feqb F z (f0 F) then None
+                         else Some (fdiv F x (fmul F z z), fdiv F y (fmul F (fmul F z z) z)))).
+  Proof.
+    intros. rewrite (gen_sw_into_affine_eq F Rth), (sw_to_affine_gen F (gf_th F G) (gf_eqb F G)). reflexivity.
+  Qed.
+  Theorem gen_sw_roundtrip_affine : forall A, gen_sw_into_affine F (gen_sw_from_affine F A) = GRet (sw_aff_repr F A).
+  Proof.
+    intros A. rewrite (gen_sw_into_affine_eq F Rth), (gen_sw_from_affine_eq F Rth),
+      (sw_roundtrip_affine F (gf_th F G) (gf_eqb F G)). reflexivity.
+  Qed.
+  Variable addb : T -> T.
+  Hypothesis addb_add : forall e, addb e = fadd F e b.
+  Lemma gen_add_0_r (R : ring_theory (f0 F) (f1 F) (fadd F) (fmul F) (fsub F) (fneg F) eq) e : e = fadd F e (f0 F).
+  Proof. symmetry. rewrite (Radd_comm R). apply (Radd_0_l R). Qed.
+  Lemma addb_default : forall e, addb e = sw_add_b F b e.
+  Proof.
+    intros e. rewrite addb_add. unfold sw_add_b.
+    destruct (feqb F b (f0 F)) eqn:E; [|reflexivity].
+    apply (gf_eqb F G) in E. rewrite E. symmetry. apply (gen_add_0_r Rth).
+  Qed.
+  Theorem gen_sw_aff_is_on_curve_spec : forall A,
+    gen_sw_aff_is_on_curve F a mba addb (sw_aff_repr F A) = true <-> aff_on F a b A.
+  Proof.
+    intros A. rewrite (gen_sw_aff_is_on_curve_eq F a b Rth mba mba_default addb addb_default).
+    apply (sw_aff_on_curve_spec F a b (gf_th F G) (gf_eqb F G)).
+  Qed.
 End SWCorollaries.
 
-(* ====================== A. twisted Edwards (extended) ====================== *)
+(* ====================== A/E. twisted Edwards (extended) ====================== *)
 
 Section TESpecs.
   Context {T : Type} (F : Fops T) (a d : T).
+  Hypothesis Rth : ring_theory (f0 F) (f1 F) (fadd F) (fmul F) (fsub F) (fneg F) eq.
+  Add Ring GenTERing : Rth.
   Variable mba : T -> T.
   Hypothesis mba_spec : forall e, mba e = fmul F e a.
 
   Lemma gen_te_double_eq P : gen_te_double_in_place F mba P = te_double F a P.
-  Proof. tuples. unfold gen_te_double_in_place, te_double, te_mul_by_a. rewrite !mba_spec. reflexivity. Qed.
+  Proof using Rth mba_spec. tuples. unfold gen_te_double_in_place, te_double, te_mul_by_a. cbv beta iota zeta. rewrite ?mba_spec. gen_solve. Qed.
   Lemma gen_te_add_eq P Q : gen_te_add_assign F d mba P Q = te_add F a d P Q.
-  Proof. tuples. unfold gen_te_add_assign, te_add, te_mul_by_a. rewrite !mba_spec. reflexivity. Qed.
+  Proof using Rth mba_spec. tuples. unfold gen_te_add_assign, te_add, te_mul_by_a. cbv beta iota zeta. rewrite ?mba_spec. gen_solve. Qed.
   Lemma gen_te_madd_eq P Q : gen_te_add_assign_affine F d mba P Q = te_madd F a d P Q.
-  Proof. tuples. unfold gen_te_add_assign_affine, te_madd, te_mul_by_a. rewrite !mba_spec. reflexivity. Qed.
+  Proof using Rth mba_spec. tuples. unfold gen_te_add_assign_affine, te_madd, te_mul_by_a. cbv beta iota zeta. rewrite ?mba_spec. gen_solve. Qed.
+
+  Lemma gen_te_zero_eq : gen_te_zero F = te_zero F.
+  Proof using Rth. try reflexivity; unfold gen_te_zero, te_zero; gen_solve. Qed.
+  Lemma gen_te_is_zero_eq P : gen_te_is_zero F P = te_is_zero F P.
+  Proof using Rth. tuples; try reflexivity; unfold gen_te_is_zero, te_is_zero; gen_solve. Qed.
+  Lemma gen_te_eq_eq P Q : gen_te_eq F P Q = te_eqb F P Q.
+  Proof using Rth. tuples; try reflexivity; unfold gen_te_eq, te_eqb, gen_te_is_zero, te_is_zero; gen_solve. Qed.
+  Lemma gen_te_neg_eq P : gen_te_neg F P = te_neg F P.
+  Proof using Rth. tuples; try reflexivity; unfold gen_te_neg, te_neg; gen_solve. Qed.
+  Lemma gen_te_from_affine_eq A : gen_te_from_affine F A = te_of_affine F A.
+  Proof using Rth. tuples; try reflexivity; unfold gen_te_from_affine, te_of_affine; gen_solve. Qed.
+  Lemma gen_te_aff_zero_eq : gen_te_aff_zero F = te_aff_zero F.
+  Proof using Rth. try reflexivity; unfold gen_te_aff_zero, te_aff_zero; gen_solve. Qed.
+  Lemma gen_te_aff_is_zero_eq A : gen_te_aff_is_zero F A = te_aff_is_zero F A.
+  Proof using Rth. tuples; try reflexivity; unfold gen_te_aff_is_zero, te_aff_is_zero; gen_solve. Qed.
+  Lemma gen_te_aff_is_on_curve_eq A : gen_te_aff_is_on_curve F d mba A = te_aff_on_curve F a d A.
+  Proof using Rth mba_spec.
+    tuples. unfold gen_te_aff_is_on_curve, te_aff_on_curve, te_mul_by_a. cbv beta iota zeta. rewrite ?mba_spec. gen_solve.
+  Qed.
+  Lemma gen_te_aff_neg_eq A : gen_te_aff_neg F A = te_aff_neg F A.
+  Proof using Rth. tuples; try reflexivity; unfold gen_te_aff_neg, te_aff_neg; gen_solve. Qed.
 
   Hypothesis G : good_field F.
+  (* From<Projective> for Affine: GPanic exactly where the model says the Rust code panics.
+     The code tests Z == 1 before the unwrap, the model Z == 0 first; they agree because 1 <> 0. *)
+  Lemma gen_te_into_affine_eq P : gen_te_into_affine F P = te_opt_as_gen (te_to_affine_opt F P).
+  Proof using Rth G.
+    destruct P as [[[x y] t] z].
+    unfold gen_te_into_affine, te_to_affine_opt, te_to_affine, gen_te_aff_zero, te_aff_zero, te_opt_as_gen.
+    rewrite gen_te_is_zero_eq. timeout 60 (gen_norm; unify_calls).
+    destruct (te_is_zero F (x, y, t, z)); [gen_leaf|].
+    destruct (feqb F z (f1 F)) eqn:E1; destruct (feqb F z (f0 F)) eqn:E0; cbv beta iota; try gen_leaf.
+    exfalso. apply (gf_eqb F G) in E1. apply (gf_eqb F G) in E0.
+    apply (F_1_neq_0 (gf_th F G)). rewrite <- E1. exact E0.
+  Qed.
+
   Theorem gen_te_add_correct : forall P Q, te_valid F P -> te_valid F Q ->
     te_dens_ok F d (te_to_affine F P) (te_to_affine F Q) ->
     te_valid F (gen_te_add_assign F d mba P Q) /\
@@ -150,37 +321,70 @@ Section TESpecs.
     te_valid F (gen_te_double_in_place F mba P) /\
     te_to_affine F (gen_te_double_in_place F mba P) = aff_add_te F a d (te_to_affine F P) (te_to_affine F P).
   Proof. intros P. rewrite gen_te_double_eq. apply (te_double_correct F a d (gf_th F G) (gf_eqb F G)). Qed.
+  Theorem gen_te_eq_spec : forall P Q, te_valid F P -> te_valid F Q ->
+    (gen_te_eq F P Q = true <-> te_to_affine F P = te_to_affine F Q).
+  Proof. intros P Q. rewrite gen_te_eq_eq. apply (te_eqb_spec F (gf_th F G) (gf_eqb F G)). Qed.
+  Theorem gen_te_neg_correct : forall P, te_valid F P ->
+    te_valid F (gen_te_neg F P) /\ te_to_affine F (gen_te_neg F P) = aff_neg_te F (te_to_affine F P).
+  Proof. intros P. rewrite gen_te_neg_eq. apply (te_neg_correct F (gf_th F G) (gf_eqb F G)). Qed.
+  Theorem gen_te_is_zero_spec : forall P, te_valid F P ->
+    (gen_te_is_zero F P = true <-> te_to_affine F P = te_aff_zero F).
+  Proof. intros P. rewrite gen_te_is_zero_eq. apply (te_is_zero_spec F (gf_th F G) (gf_eqb F G)). Qed.
+  Theorem gen_te_aff_is_on_curve_spec : forall A, gen_te_aff_is_on_curve F d mba A = true <-> te_aff_on F a d A.
+  Proof. intros A. rewrite gen_te_aff_is_on_curve_eq. apply (te_aff_on_curve_spec F a d (gf_th F G) (gf_eqb F G)). Qed.
+  Theorem gen_te_into_affine_spec : forall x y t z, z <> f0 F ->
+    gen_te_into_affine F (x, y, t, z) = GRet (te_to_affine F (x, y, t, z)).
+  Proof.
+    intros x y t z Hz. rewrite gen_te_into_affine_eq. unfold te_to_affine_opt.
+    destruct (te_is_zero F (x, y, t, z)) eqn:E.
+    - unfold te_to_affine. rewrite E. reflexivity.
+    - destruct (feqb F z (f0 F)) eqn:E0; [apply (gf_eqb F G) in E0; contradiction | reflexivity].
+  Qed.
 End TESpecs.
 
-(* ====================== B. quadratic extension ====================== *)
-
-Lemma nat_deg2 n : Nat.eqb (2 * n) 2 = Nat.eqb n 1.
-Proof. destruct (Nat.eqb_spec (2 * n) 2), (Nat.eqb_spec n 1); try reflexivity; lia. Qed.
+(* ====================== B/F. quadratic extension ====================== *)
 
 Section QuadSpecs.
   Context {T : Type} (B : Fops T) (N : nrops T).
-
-  Lemma gen_quad_is_zero_eq a : gen_quad_is_zero B a = quad_is_zero B a.
-  Proof. tuples. reflexivity. Qed.
-  Lemma gen_quad_square_eq a :
-    gen_quad_square_in_place B (nr_const N) (nr_p1_add N) (nr_sub N) a = quad_square B N a.
-  Proof. tuples. reflexivity. Qed.
-  Lemma gen_quad_inverse_eq a : gen_quad_inverse B (nr_sub N) a = quad_inverse B N a.
-  Proof. tuples. reflexivity. Qed.
-  (* the Karatsuba path alone is the model's text *)
-  Lemma gen_quad_mul_karatsuba_eq a b : Nat.eqb (fdeg B) 1 = false ->
-    gen_quad_mul_assign B (nr_mul N) (nr_mul_add N) a b = quad_mul_karatsuba B N a b.
-  Proof. intros H. tuples. unfold gen_quad_mul_assign. rewrite nat_deg2, H. reflexivity. Qed.
-
   Hypothesis Rth : ring_theory (f0 B) (f1 B) (fadd B) (fmul B) (fsub B) (fneg B) eq.
   Add Ring GenQuadRing : Rth.
+
+  Lemma gen_quad_is_zero_eq a : gen_quad_is_zero B a = quad_is_zero B a.
+  Proof using Rth. tuples; try reflexivity; unfold gen_quad_is_zero, quad_is_zero; gen_solve. Qed.
+  Lemma gen_quad_square_eq a :
+    gen_quad_square_in_place B (nr_const N) (nr_p1_add N) (nr_sub N) a = quad_square B N a.
+  Proof using Rth.
+    tuples; try reflexivity;
+      unfold gen_quad_square_in_place, quad_square, quad_nr_is_minus_one, quad_square_complex, quad_square_general;
+      gen_solve.
+  Qed.
+  Lemma gen_quad_inverse_eq a : gen_quad_inverse B (nr_sub N) a = quad_inverse B N a.
+  Proof using Rth.
+    tuples; try reflexivity; unfold gen_quad_inverse, quad_inverse, gen_quad_is_zero, quad_is_zero; gen_solve.
+  Qed.
   (* sum_of_products starts from zero: 0 + a*c + b*d versus the model's a*c + b*d *)
   Lemma gen_quad_mul_eq a b : gen_quad_mul_assign B (nr_mul N) (nr_mul_add N) a b = quad_mul B N a b.
-  Proof.
-    tuples. unfold gen_quad_mul_assign, quad_mul, quad_is_deg2. rewrite nat_deg2.
-    destruct (Nat.eqb (fdeg B) 1); [|reflexivity].
-    unfold quad_mul_sop, sop2; cbn [fst snd]. f_equal; ring.
+  Proof using Rth.
+    tuples. unfold gen_quad_mul_assign, quad_mul, quad_is_deg2, quad_mul_sop, quad_mul_karatsuba.
+    rewrite ?nat_deg2. gen_solve.
   Qed.
+  Lemma gen_quad_conjugate_eq a : gen_quad_conjugate_in_place B a = quad_conjugate B a.
+  Proof using Rth. tuples; try reflexivity; unfold gen_quad_conjugate_in_place, quad_conjugate; gen_solve. Qed.
+  Lemma gen_quad_norm_eq a : gen_quad_norm B (nr_sub N) a = quad_norm B N a.
+  Proof using Rth. tuples; try reflexivity; unfold gen_quad_norm, quad_norm; gen_solve. Qed.
+  Lemma gen_quad_mul_by_basefield_eq a e : gen_quad_mul_assign_by_basefield B a e = quad_mul_by_basefield B a e.
+  Proof using Rth. tuples; try reflexivity; unfold gen_quad_mul_assign_by_basefield, quad_mul_by_basefield; gen_solve. Qed.
+  Lemma gen_quad_double_eq a : gen_quad_double_in_place B a = qadd B a a.
+  Proof using Rth. tuples; try reflexivity; unfold gen_quad_double_in_place, qadd; gen_solve. Qed.
+  Lemma gen_quad_neg_eq a : gen_quad_neg_in_place B a = qneg B a.
+  Proof using Rth. tuples; try reflexivity; unfold gen_quad_neg_in_place, qneg; gen_solve. Qed.
+  Lemma gen_quad_add_eq a b : gen_quad_add_assign B a b = qadd B a b.
+  Proof using Rth. tuples; try reflexivity; unfold gen_quad_add_assign, qadd; gen_solve. Qed.
+  Lemma gen_quad_sub_eq a b : gen_quad_sub_assign B a b = qsub B a b.
+  Proof using Rth. tuples; try reflexivity; unfold gen_quad_sub_assign, qsub; gen_solve. Qed.
+  Lemma gen_quad_frobenius_eq frobB coef a :
+    gen_quad_frobenius_map_in_place B frobB coef a = quad_frobenius frobB coef a.
+  Proof using Rth. tuples; try reflexivity; unfold gen_quad_frobenius_map_in_place, quad_frobenius; gen_solve. Qed.
 
   (* corollaries: schoolbook arithmetic mod X^2 - nr *)
   Hypothesis Nok : nrops_ok B N.
@@ -199,34 +403,45 @@ Section QuadSpecs.
     gen_quad_inverse B (nr_sub N) a = None ->
     quad_is_zero B a = true \/ fis0 B (qnorm B (nr_const N) a) = true.
   Proof. rewrite gen_quad_inverse_eq. apply (quad_inverse_none B N Nok). Qed.
+  Theorem gen_quad_norm_spec a : gen_quad_norm B (nr_sub N) a = qnorm B (nr_const N) a.
+  Proof. rewrite gen_quad_norm_eq. apply (quad_norm_spec B Rth N Nok). Qed.
+  Theorem gen_quad_mul_by_basefield_spec a e :
+    gen_quad_mul_assign_by_basefield B a e = qmul B (nr_const N) a (e, f0 B).
+  Proof. rewrite gen_quad_mul_by_basefield_eq. apply (quad_mul_by_basefield_spec B Rth N). Qed.
 End QuadSpecs.
 
-(* ====================== B. cubic extension ====================== *)
-
-Definition cubic_inv_as_gen {T : Type} (r : cubic_inv_result (T:=T)) : gen_result (option (T * T * T)) :=
-  match r with CubicInvNone => GRet None | CubicInvPanic => GPanic | CubicInvSome x => GRet (Some x) end.
+(* ====================== B/F. cubic extension ====================== *)
 
 Section CubicSpecs.
   Context {T : Type} (B : Fops T) (mul_nr : T -> T).
-  Lemma gen_cubic_is_zero_eq s : gen_cubic_is_zero B s = cubic_is_zero B s.
-  Proof. tuples. reflexivity. Qed.
-  Lemma gen_cubic_mul_eq s o : gen_cubic_mul_assign B mul_nr s o = cubic_mul B mul_nr s o.
-  Proof. tuples. reflexivity. Qed.
-  Lemma gen_cubic_square_eq s : gen_cubic_square_in_place B mul_nr s = cubic_square B mul_nr s.
-  Proof. tuples. reflexivity. Qed.
-  Lemma gen_cubic_inverse_eq s : gen_cubic_inverse B mul_nr s = cubic_inv_as_gen (cubic_inverse B mul_nr s).
-  Proof.
-    destruct s as [[t t1] t0]. unfold gen_cubic_inverse, cubic_inverse. cbv beta iota zeta.
-    change (gen_cubic_is_zero B (t, t1, t0)) with (cubic_is_zero B (t, t1, t0)).
-    destruct (cubic_is_zero B (t, t1, t0)); [reflexivity|].
-    unfold cubic_inv_as_gen.
-    match goal with
-    | |- (if fis0 B ?n then _ else _) = match (if fis0 B ?m then _ else _) with _ => _ end =>
-        change m with n; destruct (fis0 B n); reflexivity
-    end.
-  Qed.
-
   Hypothesis Rth : ring_theory (f0 B) (f1 B) (fadd B) (fmul B) (fsub B) (fneg B) eq.
+  Add Ring GenCubicRing : Rth.
+
+  Lemma gen_cubic_is_zero_eq s : gen_cubic_is_zero B s = cubic_is_zero B s.
+  Proof using Rth. tuples; try reflexivity; unfold gen_cubic_is_zero, cubic_is_zero; gen_solve. Qed.
+  Lemma gen_cubic_mul_eq s o : gen_cubic_mul_assign B mul_nr s o = cubic_mul B mul_nr s o.
+  Proof using Rth. tuples; try reflexivity; unfold gen_cubic_mul_assign, cubic_mul; gen_solve. Qed.
+  Lemma gen_cubic_square_eq s : gen_cubic_square_in_place B mul_nr s = cubic_square B mul_nr s.
+  Proof using Rth. tuples; try reflexivity; unfold gen_cubic_square_in_place, cubic_square; gen_solve. Qed.
+  Lemma gen_cubic_inverse_eq s : gen_cubic_inverse B mul_nr s = cubic_inv_as_gen (cubic_inverse B mul_nr s).
+  Proof using Rth.
+    tuples. unfold gen_cubic_inverse, cubic_inverse, cubic_inv_as_gen, gen_cubic_is_zero, cubic_is_zero.
+    gen_solve.
+  Qed.
+  Lemma gen_cubic_mul_by_basefield_eq s e : gen_cubic_mul_assign_by_base_field B s e = cubic_mul_by_basefield B s e.
+  Proof using Rth. tuples; try reflexivity; unfold gen_cubic_mul_assign_by_base_field, cubic_mul_by_basefield; gen_solve. Qed.
+  Lemma gen_cubic_double_eq s : gen_cubic_double_in_place B s = cadd B s s.
+  Proof using Rth. tuples; try reflexivity; unfold gen_cubic_double_in_place, cadd; gen_solve. Qed.
+  Lemma gen_cubic_neg_eq s : gen_cubic_neg_in_place B s = cneg B s.
+  Proof using Rth. tuples; try reflexivity; unfold gen_cubic_neg_in_place, cneg; gen_solve. Qed.
+  Lemma gen_cubic_add_eq s o : gen_cubic_add_assign B s o = cadd B s o.
+  Proof using Rth. tuples; try reflexivity; unfold gen_cubic_add_assign, cadd; gen_solve. Qed.
+  Lemma gen_cubic_sub_eq s o : gen_cubic_sub_assign B s o = csub B s o.
+  Proof using Rth. tuples; try reflexivity; unfold gen_cubic_sub_assign, csub; gen_solve. Qed.
+  Lemma gen_cubic_frobenius_eq frobB coef1 coef2 s :
+    gen_cubic_frobenius_map_in_place B frobB coef1 coef2 s = cubic_frobenius frobB coef1 coef2 s.
+  Proof using Rth. tuples; try reflexivity; unfold gen_cubic_frobenius_map_in_place, cubic_frobenius; gen_solve. Qed.
+
   Variable nr : T.
   Hypothesis mul_nr_spec : forall y, mul_nr y = fmul B nr y.
   Theorem gen_cubic_mul_spec s o : gen_cubic_mul_assign B mul_nr s o = cmul B nr s o.
@@ -248,46 +463,51 @@ Section CubicSpecs.
     intros H0 Hn. destruct (cubic_inverse_total B Rth nr mul_nr mul_nr_spec s H0 Hn) as [r Hr].
     exists r. rewrite gen_cubic_inverse_eq, Hr. reflexivity.
   Qed.
+  Theorem gen_cubic_mul_by_basefield_spec s e :
+    gen_cubic_mul_assign_by_base_field B s e = cmul B nr s (e, f0 B, f0 B).
+  Proof. rewrite gen_cubic_mul_by_basefield_eq. apply (cubic_mul_by_basefield_spec B Rth nr). Qed.
 End CubicSpecs.
 
 (* ====================== C. sparse multiplications, cyclotomic squaring ====================== *)
 
 Section TowerSpecs.
   Context {T : Type} (B : Fops T).
+  Hypothesis Rth : ring_theory (f0 B) (f1 B) (fadd B) (fmul B) (fsub B) (fneg B) eq.
+  Add Ring GenTowerRing : Rth.
 
   Lemma gen_fp6b_mul_by_034_eq nr3 s x0 x3 x4 :
     gen_fp6_2over3_mul_by_034 B nr3 s x0 x3 x4 = fp6b_mul_by_034 B nr3 s x0 x3 x4.
-  Proof. tuples. reflexivity. Qed.
+  Proof using Rth. tuples; try reflexivity; unfold gen_fp6_2over3_mul_by_034, fp6b_mul_by_034; gen_solve. Qed.
   Lemma gen_fp6b_mul_by_014_eq nr3 s x0 x1 x4 :
     gen_fp6_2over3_mul_by_014 B nr3 s x0 x1 x4 = fp6b_mul_by_014 B nr3 s x0 x1 x4.
-  Proof. tuples. reflexivity. Qed.
+  Proof using Rth. tuples; try reflexivity; unfold gen_fp6_2over3_mul_by_014, fp6b_mul_by_014; gen_solve. Qed.
   Lemma gen_fp6a_mul_by_1_eq mul_nr s e1 :
     gen_fp6_3over2_mul_by_1 B mul_nr s e1 = fp6a_mul_by_1 B mul_nr s e1.
-  Proof. tuples. reflexivity. Qed.
+  Proof using Rth. tuples; try reflexivity; unfold gen_fp6_3over2_mul_by_1, fp6a_mul_by_1; gen_solve. Qed.
   Lemma gen_fp6a_mul_by_01_eq mul_nr s e0 e1 :
     gen_fp6_3over2_mul_by_01 B mul_nr s e0 e1 = fp6a_mul_by_01 B mul_nr s e0 e1.
-  Proof. tuples. reflexivity. Qed.
+  Proof using Rth. tuples; try reflexivity; unfold gen_fp6_3over2_mul_by_01, fp6a_mul_by_01; gen_solve. Qed.
+  (* Fp12 level: the Fp6 operations are those of an abstract dictionary D6, as in the model *)
+  Ltac fp12_solve D6 :=
+    gen_norm; rewrite ?gen_fp6a_mul_by_01_eq, ?gen_fp6a_mul_by_1_eq;
+    timeout 60 (repeat (progress (unify_calls; unify_bin (fadd D6); unify_bin (fsub D6))));
+    first [reflexivity | gen_leaf].
   Lemma gen_fp12_mul_by_034_eq mul_nr D6 mul_nr6 s e0 e3 e4 :
     gen_fp12_mul_by_034 B D6 mul_nr mul_nr6 s e0 e3 e4 = fp12_mul_by_034 B mul_nr D6 mul_nr6 s e0 e3 e4.
-  Proof.
-    tuples. unfold gen_fp12_mul_by_034, fp12_mul_by_034. cbv beta iota zeta.
-    rewrite !gen_fp6a_mul_by_01_eq. reflexivity.
-  Qed.
+  Proof using Rth. tuples. unfold gen_fp12_mul_by_034, fp12_mul_by_034. fp12_solve D6. Qed.
   Lemma gen_fp12_mul_by_014_eq mul_nr D6 mul_nr6 s e0 e1 e4 :
     gen_fp12_mul_by_014 B D6 mul_nr mul_nr6 s e0 e1 e4 = fp12_mul_by_014 B mul_nr D6 mul_nr6 s e0 e1 e4.
-  Proof.
-    tuples. unfold gen_fp12_mul_by_014, fp12_mul_by_014. cbv beta iota zeta.
-    rewrite !gen_fp6a_mul_by_01_eq, !gen_fp6a_mul_by_1_eq. reflexivity.
-  Qed.
+  Proof using Rth. tuples. unfold gen_fp12_mul_by_014, fp12_mul_by_014. fp12_solve D6. Qed.
   (* Granger-Scott path (characteristic^2 = 1 mod 6), and the fall-back to square_in_place *)
   Lemma gen_fp12_cyc_square_eq fp2_nr sq s :
     gen_fp12_cyclotomic_square_in_place B fp2_nr true sq s = gs_square B fp2_nr s.
-  Proof. tuples. reflexivity. Qed.
+  Proof using Rth.
+    tuples; try reflexivity; unfold gen_fp12_cyclotomic_square_in_place, gs_square, gs_fp4_sq; gen_solve.
+  Qed.
   Lemma gen_fp12_cyc_square_fallback fp2_nr sq s :
     gen_fp12_cyclotomic_square_in_place B fp2_nr false sq s = sq s.
-  Proof. tuples. reflexivity. Qed.
+  Proof using Rth. tuples; try reflexivity; unfold gen_fp12_cyclotomic_square_in_place; gen_solve. Qed.
 
-  Hypothesis Rth : ring_theory (f0 B) (f1 B) (fadd B) (fmul B) (fsub B) (fneg B) eq.
   Theorem gen_fp6b_mul_by_034_spec nr3 s x0 x3 x4 :
     gen_fp6_2over3_mul_by_034 B nr3 s x0 x3 x4 =
     qmul (CubicOps B nr3) (f0 B, f1 B, f0 B) s (x0, f0 B, f0 B, (x3, x4, f0 B)).
@@ -339,37 +559,41 @@ End TowerSpecs.
 
 Section HookSpecs.
   Context {T : Type} (F : Fops T).
+  Hypothesis Rth : ring_theory (f0 F) (f1 F) (fadd F) (fmul F) (fsub F) (fneg F) eq.
+  Add Ring GenHookRing : Rth.
+
   Lemma gen_sw_mul_by_a_eq a e : gen_sw_mul_by_a F a e = sw_mul_by_a F a e.
-  Proof. reflexivity. Qed.
+  Proof using Rth. try reflexivity; unfold gen_sw_mul_by_a, sw_mul_by_a; gen_solve. Qed.
   Lemma gen_sw_add_b_eq b e : gen_sw_add_b F b e = sw_add_b F b e.
-  Proof. reflexivity. Qed.
+  Proof using Rth. try reflexivity; unfold gen_sw_add_b, sw_add_b; gen_solve. Qed.
   Lemma gen_te_mul_by_a_eq a e : gen_te_mul_by_a F a e = te_mul_by_a F a e.
-  Proof. reflexivity. Qed.
+  Proof using Rth. try reflexivity; unfold gen_te_mul_by_a, te_mul_by_a; gen_solve. Qed.
   (* QuadExtConfig defaults = the record [default_nrops] of C02/Quad.v *)
   Lemma gen_quad_default_mul_and_add_eq nr mul_nr y x :
     gen_quad_default_mul_and_add F mul_nr y x = nr_mul_add (default_nrops F nr mul_nr) y x.
-  Proof. reflexivity. Qed.
+  Proof using Rth. try reflexivity; unfold gen_quad_default_mul_and_add, default_nrops; cbn [nr_mul_add]; gen_solve. Qed.
   Lemma gen_quad_default_plus_one_and_add_eq nr mul_nr y x :
     gen_quad_default_plus_one_and_add F (nr_mul_add (default_nrops F nr mul_nr)) y x
     = nr_p1_add (default_nrops F nr mul_nr) y x.
-  Proof. reflexivity. Qed.
+  Proof using Rth.
+    try reflexivity; unfold gen_quad_default_plus_one_and_add, default_nrops; cbn [nr_mul_add nr_p1_add]; gen_solve.
+  Qed.
   Lemma gen_quad_default_sub_and_mul_eq nr mul_nr y x :
     gen_quad_default_sub_and_mul F mul_nr y x = nr_sub (default_nrops F nr mul_nr) y x.
-  Proof. reflexivity. Qed.
+  Proof using Rth. try reflexivity; unfold gen_quad_default_sub_and_mul, default_nrops; cbn [nr_sub]; gen_solve. Qed.
   (* Fp4Config / Fp6Config (2 over 3) / Fp12Config: multiplication by the tower generator *)
   Lemma gen_fp4_mul_fp2_by_nonresidue_eq mul_nr_below fe :
     gen_fp4_mul_fp2_by_nonresidue F mul_nr_below fe = mul_nr_swap mul_nr_below fe.
-  Proof. tuples. reflexivity. Qed.
+  Proof using Rth. tuples; try reflexivity; unfold gen_fp4_mul_fp2_by_nonresidue, mul_nr_swap; gen_solve. Qed.
   Lemma gen_fp6_2over3_mul_fp3_by_nonresidue_eq mul_nr_below fe :
     gen_fp6_2over3_mul_fp3_by_nonresidue F mul_nr_below fe = mul_nr_rot mul_nr_below fe.
-  Proof. tuples. reflexivity. Qed.
+  Proof using Rth. tuples; try reflexivity; unfold gen_fp6_2over3_mul_fp3_by_nonresidue, mul_nr_rot; gen_solve. Qed.
   Lemma gen_fp12_mul_fp6_by_nonresidue_eq mul_nr_below fe :
     gen_fp12_mul_fp6_by_nonresidue F mul_nr_below fe = mul_nr_rot mul_nr_below fe.
-  Proof. tuples. reflexivity. Qed.
+  Proof using Rth. tuples; try reflexivity; unfold gen_fp12_mul_fp6_by_nonresidue, mul_nr_rot; gen_solve. Qed.
 
   (* so the generated group law with the generated default mul_by_a is the model *)
-  Hypothesis Rth : ring_theory (f0 F) (f1 F) (fadd F) (fmul F) (fsub F) (fneg F) eq.
   Lemma gen_sw_double_default_eq a P :
     gen_sw_double_in_place F a (gen_sw_mul_by_a F a) P = sw_double F a P.
-  Proof. apply (gen_sw_double_eq F a Rth). intros e. reflexivity. Qed.
+  Proof. apply (gen_sw_double_eq F a Rth). intros e. apply gen_sw_mul_by_a_eq. Qed.
 End HookSpecs.
